@@ -271,3 +271,5 @@ func msgEqualBytes(md protoreflect.MessageDescriptor, a, b []byte) bool {
 	}
 	return proto.Equal(ma, mb)
 }
+
+func protoreflectBytes(b []byte) protoreflect.Value { return protoreflect.ValueOfBytes(b) }
